@@ -137,7 +137,7 @@ class C20(Monitor):
                 elif rnd.random() < 0.04:
                     # display text with escaped characters: "\\;" is text, not a comment; after "\\\\" a ';' starts one
                     cmd = rnd.choice(["M117 Layer %d\\; 40%% done", "M117 a\\\\;b c %d", "M117 %d\\;\\;x", "M117 path c:\\\\tmp %d",
-                                      "M117 %d \\; ; real comment"]) % rnd.randint(0, 99)
+                                      "M117 %d \\; ; real comment", "M117.0 sub-coded %d", "M204.0 S%d", "M117.1 sub-coded %d"]) % rnd.randint(0, 99)
                 elif rnd.random() < 0.04 and " " in cmd:
                     cmd = cmd.replace(" ", rnd.choice(["\t", " \t", "  "]))
                 elif rnd.random() < 0.05:
